@@ -64,8 +64,11 @@ template< typename F, typename FP>
          if (mpDuplicatePolicy->acceptNew())
          {
             // policy: replace
+            // create the new filter first: when its constructor throws, the
+            // existing filter must remain in the container
+            auto  new_filter = new F( filter_param);
             delete it;
-            it = new F( filter_param);
+            it = new_filter;
          } // end if
 
          if (detail::IFilter::isLevelFilter( filter_type))
